@@ -11,6 +11,7 @@ import Mathlib.Tactic.Ring
 import Mathlib.Tactic.FieldSimp
 import Resvg.SvgTree.Cascade
 import Resvg.Convert.SvgSize
+import Resvg.Generated.InheritReads
 
 namespace Resvg.Props.C09
 open Resvg Resvg.SvgTree
@@ -339,5 +340,42 @@ theorem C09_font_size_agrees_with_lengths (dpi fs n b : Rat) (u : Convert.LUnit)
 example : plain "rect" "fill" "red" := by unfold plain; decide +kernel
 example : lookup (cascadeElement "rect" [] [("fill", "red")] [("fill", "blue", false), ("fill", "green", true), ("fill", "black", true)]) "fill"
     = some ⟨"fill", "green", true⟩ := by decide +kernel
+
+/-! ### inheritable properties are read through the ancestor chain
+
+Inheritance is not materialised in the intermediate tree: a converter that wants the value of an
+inheritable property has to look along the ancestors (`find_attribute`, an explicit
+`ancestors().find(..)`, the length resolvers).  The translator lists, from the current sources, every
+place where an inheritable property is read on ONE element only, and every place where a
+non-inheritable one is read along the chain.  Each entry of the reviewed lists below has been
+checked by hand; any new entry breaks the theorem. -/
+
+/-- reviewed: these single-element reads sit inside an explicit walk over `ancestors()` (fill, stroke,
+    stroke-dasharray in style.rs; font-family / -stretch / -weight, writing-mode in text.rs; font-size in
+    units.rs `resolve_font_size`), or concern a property that belongs to one element by definition
+    (`background-color` of the root, `mask-type` of a mask) -/
+def reviewedDirectReads : List (String × String) := [
+  ("BackgroundColor", "parser/converter.rs"),
+  ("Fill", "parser/style.rs"),
+  ("FontFamily", "parser/text.rs"),
+  ("FontSize", "parser/units.rs"),
+  ("FontStretch", "parser/text.rs"),
+  ("FontWeight", "parser/text.rs"),
+  ("MaskType", "parser/mask.rs"),
+  ("Stroke", "parser/style.rs"),
+  ("StrokeDasharray", "parser/style.rs"),
+  ("WritingMode", "parser/text.rs")]
+
+/-- reviewed: the baseline properties are looked up on the text chunk's ancestors (text.rs) -/
+def reviewedChainReads : List (String × String) := [
+  ("AlignmentBaseline", "parser/text.rs"),
+  ("DominantBaseline", "parser/text.rs")]
+
+/-- **no converter reads an inheritable property from a single element** (outside the reviewed
+    ancestor walks), and none lets a non-inheritable property inherit -/
+theorem C09_inheritable_reads_use_the_chain :
+    (∀ r ∈ Generated.directInheritableReads, r ∈ reviewedDirectReads) ∧
+    (∀ r ∈ Generated.chainNonInheritableReads, r ∈ reviewedChainReads) := by
+  constructor <;> decide
 
 end Resvg.Props.C09
